@@ -16,6 +16,7 @@ compared in order (names, doses as exact rationals, sample, plate, observation b
 the stale `plate_mapping` the merge smoothers leave behind (they re-encode `_plate_ids` only).
 """
 import heapq as _heapq
+import inspect
 import math
 from collections import Counter
 
@@ -43,22 +44,52 @@ TREAT_POOL = ["a", "b", "c", "d", "ab", "B", "e", "f"]
 
 # ------------------------------------------------------------------ recording proxies
 
+def _sig_choice(a, size=None, replace=True, p=None, axis=0, shuffle=True):
+    """reference signature of numpy.random.Generator.choice (for binding recorded calls)"""
+
+
+def _sig_permutation(x, axis=0):
+    """reference signature of numpy.random.Generator.permutation"""
+
+
 class RecRng:
-    """recording wrapper around a seeded numpy Generator (the rng argument is duck-typed everywhere)"""
+    """recording wrapper around a seeded numpy Generator (the rng argument is duck-typed everywhere).
+    HARDENING item 21: every method takes and forwards `*args, **kwargs` unchanged; what is recorded is found by binding the call to
+    numpy's signature inside a try -- a call form the recorder does not understand is noted in `self.unexpected` (reported as
+    `wrapper.unexpected-call` + a broken tie by the streams) and still forwarded."""
 
     def __init__(self, seed):
         self.g = np.random.default_rng(seed)
         self.log = []
+        self.unexpected = []
 
-    def permutation(self, x):
-        out = self.g.permutation(x)
-        self.log.append(("permutation", np.asarray(x).tolist(), np.asarray(out).tolist()))
+    def permutation(self, *args, **kwargs):
+        out = self.g.permutation(*args, **kwargs)
+        try:
+            b = inspect.signature(_sig_permutation).bind(*args, **kwargs)
+            x = b.arguments["x"]
+            pop = list(range(int(x))) if isinstance(x, (int, np.integer)) else np.asarray(x).tolist()
+            self.log.append(("permutation", pop, np.asarray(out).tolist()))
+        except Exception as e:
+            self.unexpected.append("permutation: %r" % (e,))
+            self.log.append(("other:permutation",))
         return out
 
-    def choice(self, a, size=None, replace=True, **kw):
-        out = self.g.choice(a, size, replace=replace, **kw)
-        self.log.append(("choice", list(np.asarray(a).tolist()), np.atleast_1d(np.asarray(out)).tolist(), bool(replace)))
+    def choice(self, *args, **kwargs):
+        out = self.g.choice(*args, **kwargs)
+        try:
+            self._record_choice(out, *args, **kwargs)
+        except Exception as e:
+            self.unexpected.append("choice: %r" % (e,))
+            self.log.append(("other:choice",))
         return out
+
+    def _record_choice(self, out, *args, **kwargs):
+        b = inspect.signature(_sig_choice).bind(*args, **kwargs)
+        b.apply_defaults()
+        a = b.arguments["a"]
+        pop = list(range(int(a))) if isinstance(a, (int, np.integer)) else list(np.asarray(a).tolist())
+        self.log.append(("choice", pop, np.atleast_1d(np.asarray(out)).tolist(), bool(b.arguments["replace"])))
 
     def __getattr__(self, name):
         # anything else the code might start calling is recorded by name and delegated
@@ -69,19 +100,23 @@ class RecRng:
 
 
 class HeapProxy:
+    """stands in for the `heapq` module inside batchie.retrospective: forwards every call unchanged, records which plate a pop returned"""
+
     def __init__(self):
         self.pops = []
+        self.unexpected = []
 
-    def heapify(self, h):
-        _heapq.heapify(h)
-
-    def heappush(self, h, x):
-        _heapq.heappush(h, x)
-
-    def heappop(self, h):
-        p = _heapq.heappop(h)
-        self.pops.append(int(np.argmax(p.selection_vector)))
+    def heappop(self, *args, **kwargs):
+        p = _heapq.heappop(*args, **kwargs)
+        try:
+            self.pops.append(int(np.argmax(p.selection_vector)))
+        except Exception as e:
+            self.unexpected.append("heappop: %r" % (e,))
         return p
+
+    def __getattr__(self, name):
+        # heapify, heappush and whatever else of heapq the code uses
+        return getattr(_heapq, name)
 
 
 # ------------------------------------------------------------------ screens
@@ -1717,6 +1752,9 @@ def run_property(ctx, res, prop, oracle, rule, extra_stream=None):
         res.count("rows.%s" % ("1-5" if o.inp.size <= 5 else "6-15" if o.inp.size <= 15 else "16-40" if o.inp.size <= 40 else "41+"))
         if o.rng is not None and any(e[0].startswith("other:") for e in o.rng.log):
             res.notes.append("unrecorded generator method used by %s: %s" % (op, [e[0] for e in o.rng.log if e[0].startswith("other:")][:3]))
+        if o.rng is not None and o.rng.unexpected:
+            res.count("wrapper.unexpected-call")
+            tie(res, prop, case, "a recording wrapper of the harness met a call form it does not understand", o.rng.unexpected[:2])
         oracle(res, case, o)
         oracle_common(res, case, o, prop)
         clause_counters(res, case, o)
